@@ -1,13 +1,24 @@
 """C08 — lookup by flight identifier returns exactly the matching trajectory.
 
-R1  stale-flag discipline (T-ORDER): every normal path through `add` passes the
-    point where `index_stale = True` is set for identified stores; in
+R1  stale-flag discipline (T-ORDER): every normal path through `add` to a
+    return passes the point where `index_stale = True` is set, or a branch that
+    established that the store is not identified and nothing else (forward
+    may-analysis on the CFG: `if self.indexable: mark`, a guard clause
+    `if not self.indexable: return`, ...), and the mark follows the write; in
     get_flight / sync / close every use of the index (reads of the index
     variables or of an attribute holding a copy of them, dataset sync/close,
     dropping the index group) is dominated by the lazy `_reindex()`;
     `_reindex` clears the flag only after both index variables were stored.
 R2  sorted-writer <-> bisect-reader agreement, decided on values, not on
-    spelling.  Writers: what is stored into the two index variables is traced
+    spelling.  Writers (`_reindex`, the merged-index builder): first by
+    bounded interpretation (`sa.rules.c09.TruthTable`, an abstract interpreter
+    over the AST; nothing is imported or run) on model stores - every store
+    of up to 3 files / every tuple of up to 3 parts with at most 3
+    trajectories each, every trajectory with its own identifier, numpy
+    arrays as one-dimensional arrays: what is stored into the two index
+    variables must be the identifiers in ascending order, each next to the
+    position of its trajectory in the store.  Only when the interpretation
+    cannot evaluate the writer: what is stored is traced
     back (single-definition locals, tuple unpacking, conversions, calls of
     resolved repository functions with their arguments bound) to two columns
     of ONE ascending sort of (position, identifier) pairs — tuples or
@@ -17,7 +28,8 @@ R2  sorted-writer <-> bisect-reader agreement, decided on values, not on
     flight_id, that column being built from nothing but `flight_id`
     variables; the other column is the enumeration position or is built
     from nothing but `trajectory_index` variables.  Reader: the one
-    binary search (bisect_left, np.searchsorted / .searchsorted, side left)
+    binary search (bisect_left, np.searchsorted / .searchsorted, side left;
+    the same call written out more than once counts once)
     runs over the flight_id index variable (read directly or through an
     attribute that holds a copy) for the requested identifier; the value
     returned through the index is `self[T[pos]]` with T the trajectory_index
@@ -30,9 +42,19 @@ R2  sorted-writer <-> bisect-reader agreement, decided on values, not on
     comprehension, dict comprehension + get), None when there is none; the
     same scan on a store with files is accepted only as a short-cut whose
     miss goes on to the index.
-R3  merged offsets: trajectory_index + index_offset, the offset advanced by
-    len(store) after each input, iterating the caller's list unchanged.
-R4  all-or-none: `add` and `merge` refuse mixed identifier use.
+R3  merged stores (rules shared with C09, `sa.rules.c09`): the `stores` entry of the metadata document and the sequence
+    of stores the merged-index builder walks are both order-preserving images of the checked input list of merge
+    (provenance; `sorted()`, sets, directory listings, in-place sorts are definite violations), and - by bounded
+    interpretation of the builder on every tuple of up to 3 model parts with 1..3 trajectories - what the builder stores
+    maps every identifier (ascending) to the position of its trajectory in the concatenation of the parts.  When the
+    interpretation cannot be decided: trajectory_index + index_offset, the offset advanced by len(store) after each
+    input (`rule_offsets`).
+R4  all-or-none.  `add`, by interpretation over (identifier use of the store: not fixed / identified / unidentified) x
+    (the trajectory: no flight_id field / field None / an identifier): a raise exactly when the use is fixed and differs
+    from the trajectory's - on every path, so a check that hangs on session-local state is a violation -, the first
+    addition fixes the use, later ones leave it (spelling-bound fallback when not decided).  `merge` refuses every
+    sequence of up to three inputs that mixes identified and unidentified stores and builds the merged index for
+    every uniformly identified sequence (bounded interpretation of `merge`, C09-R2 / R6).
 R5  file-link typestate: `self._nc[<key>]` and `self.index_group.<attr>` are
     dereferenced only on paths that established that files are attached
     (CFG with certifying edges removed, propagated over self-calls from the
@@ -78,18 +100,40 @@ def rule_stale(ctx, m):
             and norm(n.stmt.targets[0]) == 'self.index_stale']
     true_sets = [n for n in sets if isinstance(n.stmt.value, ast.Constant) and n.stmt.value.value is True]
     ctx.floor('C08-R1', len(true_sets), 1, '`index_stale = True` in add')
-    dom = g.dominators(edge_ok=_normal)
-    for n in true_sets:
+    # every normal path to a return passes the mark, or a branch that established "the store is not identified" and
+    # nothing else (forward may-analysis: U = not marked yet, M = marked, E = exempt); any spelling of the branch:
+    # `if self.indexable: mark`, a guard clause `if not self.indexable: return`, …
+    mark_ids = {n.id for n in true_sets}
+
+    def _unidentified(test, truth) -> bool:
+        for e, pol in conjuncts(test, truth):
+            t = norm(e)
+            if t in ('self.indexable', 'bool(self.indexable)', 'self.indexable is True', 'self.indexable == True',
+                     'self.indexable is not False', 'self.indexable is not None') and not pol:
+                return True
+            if t in ('self.indexable is False', 'self.indexable == False', 'self.indexable is None',
+                     'self.indexable is not True', 'not self.indexable') and pol:
+                return True
+        return False
+
+    def _tr(node, st):
+        return frozenset({'M'}) if node.id in mark_ids else st
+
+    def _br(node, lab, st):
+        if node.kind == 'test' and isinstance(node.stmt, (ast.If, ast.While)) and _unidentified(node.stmt.test, lab == 't'):
+            return frozenset('E' if x == 'U' else x for x in st)
+        return st
+    ins, _ = g.forward(frozenset({'U'}), _tr, lambda a, b: a | b, edge_ok=_normal, branch_transfer=_br)
+    at_exit = ins.get(g.exit, frozenset({'U'}))
+    for n in true_sets[:1]:
         gs = guards_of(n.stmt)
         atoms = set()
         for t, pol, _ in gs:
             atoms |= {a for a in _guard_atoms(t)} if pol else {'not(' + norm(t) + ')'}
         extra = atoms - {'self.indexable'}
-        heads = [x for _, _, o in gs for x in g.nodes_of(o)] or [n.id]
-        on_all = all(h in dom[g.exit] for h in heads)
-        ok = not extra and on_all
+        ok = 'U' not in at_exit
         ctx.ob('C08-R1', add, 'index marked stale on every successful identified add', ok,
-               'set under `if self.indexable` on every normal path to the return' if ok else
+               'every normal path to the return passes the mark unless the store is not identified' if ok else
                (f'the stale mark is skipped under extra condition(s) {sorted(extra)}' if extra else
                 'some normal path through add returns without passing the stale mark'),
                line=n.line)
@@ -608,8 +652,23 @@ def rule_sorted_writers(ctx, m):
     of the (identifier, position) pairs keyed on the identifier — the column the reader bisects on — whether the
     sort is written inline, through locals, or inside a resolved callee."""
     prog = ctx.prog
+    from .c09 import merged_index_table, reindex_table
     for qn in ('TrajectoryStore._reindex', 'TrajectoryStore._create_merged_store_index'):
         fi = m.func(qn)
+        # first by bounded interpretation of the writer on model stores (c09: every store / every tuple of parts within
+        # small bounds): what it stores must be the identifiers in ascending order, each next to the position of its
+        # trajectory.  Only when that is not decided, by tracing the stored values back to one sort (below).
+        try:
+            verdict, text, line = reindex_table(prog, m) if qn.endswith('_reindex') else merged_index_table(ctx, prog, m)
+        except Exception as ex:
+            if type(ex).__name__ == 'AnalysisError':
+                raise
+            verdict, text = None, f'internal: {type(ex).__name__}: {ex}'
+        if verdict is not None:
+            ctx.ob('C08-R2', fi, 'index variables = identifiers ascending, each next to the position of its trajectory', verdict,
+                   text, line=line)
+            continue
+        ctx.note(f'C08-R2: interpretation of {fi.name} not decided ({text}); value-tracing rule used')
         W = _index_writers(prog, fi)
         if set(W) != {'flight_id', 'trajectory_index'} or any(len(v) != 1 for v in W.values()):
             ctx.undecided('C08-R2', fi, 'index variable stores',
@@ -942,6 +1001,22 @@ def _cache_search(prog, gf, ret: ast.Return, v: ast.expr, facts, loop_facts=None
     return None
 
 
+def _stores_between(fn: ast.AST, calls: list[ast.Call]) -> bool:
+    """do the calls sit in different statements with a store, a mutating call or a loop between / around them?"""
+    stmts = {id(stmt_of(c)) for c in calls}
+    if len(stmts) == 1 and not any(isinstance(a, (ast.For, ast.AsyncFor, ast.While, ast.ListComp, ast.GeneratorExp, ast.SetComp,
+                                                  ast.DictComp)) for c in calls for a in ancestors(c)
+                                   if not isinstance(a, (ast.FunctionDef, ast.AsyncFunctionDef, ast.ClassDef, ast.Module))
+                                   and a is not fn and any(x is a for x in ast.walk(stmt_of(calls[0])))):
+        return False
+    lo, hi = min(c.lineno for c in calls), max(getattr(c, 'end_lineno', c.lineno) for c in calls)
+    names = {x.id for c in calls for x in ast.walk(c) if isinstance(x, ast.Name)}
+    for t, st, _ in stores_to(fn):
+        if lo <= st.lineno <= hi and ({x.id for x in ast.walk(t) if isinstance(x, ast.Name)} & names or not isinstance(t, ast.Name)):
+            return True
+    return any(isinstance(x, (ast.For, ast.AsyncFor, ast.While)) and lo <= x.lineno <= hi for x in walk_no_nested(fn))
+
+
 def rule_reader(ctx, m):
     """R2, reader side (get_flight)."""
     prog = ctx.prog
@@ -966,8 +1041,12 @@ def rule_reader(ctx, m):
 
     searches = [(c, _search_call(c)) for c in calls_in(gf.node)]
     searches = [(c, s) for c, s in searches if s is not None]
-    if len(searches) != 1:
+    # the same search written out more than once (a temporary that was inlined: same function, same arguments, nothing
+    # stored in between) is one search
+    texts = {norm(c) for c, _ in searches}
+    if len(texts) != 1 or (len(searches) > 1 and _stores_between(gf.node, [c for c, _ in searches])):
         ctx.undecided('C08-R2', gf, 'bisect', f'expected one binary search call (bisect_left / searchsorted), found {len(searches)}')
+    same = [c for c, _ in searches]
     b, (arr, val, side) = searches[0]
     if side not in ('left', 'right'):
         ctx.undecided('C08-R2', gf, norm(b)[:80], 'binary search with options that are not modelled')
@@ -980,14 +1059,17 @@ def rule_reader(ctx, m):
 
     def is_pos(e, facts=()):
         x = resolve_value(prog, Ref(e, gf))
-        if x.e is b and not x.comp:
+        if any(x.e is c for c in same) and not x.comp:
             return True
         # a local assigned more than once: on this path it holds the search result
-        v = b
-        par = getattr(v, '_parent', None)
-        while isinstance(par, ast.Call) and call_name(par) in _TRANSPARENT and len(par.args) == 1:
-            v, par = par, getattr(par, '_parent', None)
-        return isinstance(e, ast.Name) and any((f'@is {id(c)} {e.id}', True) in facts for c in (b, v))
+        cands = []
+        for c in same:
+            v = c
+            par = getattr(v, '_parent', None)
+            while isinstance(par, ast.Call) and call_name(par) in _TRANSPARENT and len(par.args) == 1:
+                v, par = par, getattr(par, '_parent', None)
+            cands += [c, v]
+        return isinstance(e, ast.Name) and any((f'@is {id(c)} {e.id}', True) in facts for c in cands)
 
     def src_of(e):
         return index_source(prog, cls, Ref(e, gf))
@@ -1400,11 +1482,7 @@ def rule_offsets(ctx, m, rule='C08-R3'):
             if it is not None and starts_zero and any(k.arg == 'initial' for k in c.keywords) is False and isinstance(it, ast.Name):
                 ctx.undecided(rule, fi, norm(c)[:80], 'accumulate over all stores with a leading 0: alignment with the stores cannot be decided')
         ctx.undecided(rule, fi, 'index_offset loop', 'no loop advancing index_offset and no recognised pre-computed offsets')
-    ok = isinstance(lp.iter, ast.Name) and lp.iter.id in fi.params
-    ctx.ob(rule, fi, f'for … in {norm(lp.iter)}', ok,
-           'iterates the caller\'s list in the order given' if ok else
-           'inputs are visited in a different order than the metadata records', line=lp.lineno)
-    init = single_def_value(fi.node, 'index_offset')
+    # (which stores the loop visits, in which order: c09.rule_index_walk, by provenance)
     aug = [s for s in lp.body if isinstance(s, ast.AugAssign) and norm(s.target) == 'index_offset']
     use_idx = [i for i, s in enumerate(lp.body) if 'index_offset' in norm(s) and s not in aug]
     aug_idx = [i for i, s in enumerate(lp.body) if s in aug]
@@ -1434,6 +1512,28 @@ def rule_offsets(ctx, m, rule='C08-R3'):
 
 def rule_all_or_none(ctx, m):
     add = m.func('TrajectoryStore.add')
+    # add: by interpretation over (identifier use of the store) x (the trajectory has no field / None / an identifier);
+    # the spelling-bound rule below only when that is not decided
+    from .c09 import add_identifier_table
+    try:
+        verdict, text, line = add_identifier_table(ctx.prog, m)
+    except Exception as ex:
+        if type(ex).__name__ == 'AnalysisError':
+            raise
+        verdict, text, line = None, f'internal: {type(ex).__name__}: {ex}', add.node.lineno
+    if verdict is None:
+        ctx.note(f'C08-R4: interpretation of add not decided ({text}); shape rule used')
+        _all_or_none_add_shape(ctx, add)
+    else:
+        ctx.ob('C08-R4', add, 'mixed identifier use refused on add, first addition fixes identifier use', verdict, text, line=line)
+    # merge: every mixed list of inputs is refused (truth table over short input sequences), and the merged index is
+    # built exactly when every input is identified - shared with C09 (R2, R6)
+    from .c09 import merge_builder, rule_mixed_refused
+    refused = rule_mixed_refused(ctx, ctx.prog, m, 'C08-R4')
+    merge_builder(ctx, ctx.prog, m, refused, 'C08-R3', 'C08-R4')
+
+
+def _all_or_none_add_shape(ctx, add):
     found = None
     for n in walk_no_nested(add.node):
         if isinstance(n, ast.Raise):
@@ -1465,23 +1565,6 @@ def rule_all_or_none(ctx, m):
     ok = bool(first) and any('self.indexable is None' in norm(t) and pol for t, pol, _ in guards_of(first[0]))
     ctx.ob('C08-R4', add, 'first addition fixes identifier use', ok,
            norm(first[0]) if ok else 'indexable is not fixed by the first addition only')
-    mg = m.func('TrajectoryStore.merge')
-    found = None
-    for n in walk_no_nested(mg.node):
-        if isinstance(n, ast.Raise):
-            for t, pol, _ in guards_of(n):
-                if 'indexable' in norm(t) and 'any(' in norm(t):
-                    found = (n, norm(t))
-    ok = found is not None
-    a = single_def_value(mg.node, 'indexable')
-    ok = ok and a is not None and norm(a).startswith('all(')
-    ctx.ob('C08-R4', mg, 'mixed identifier use refused on merge', ok,
-           f'raise under `{found[1]}` with indexable = {norm(a)}' if ok else
-           'merge accepts a mix of identified and unidentified stores')
-    idx_call = [c for c in calls_in(mg.node) if call_name(c).endswith('_create_merged_store_index')]
-    ok = bool(idx_call) and any(norm(t) == 'indexable' and pol for t, pol, _ in guards_of(idx_call[0]))
-    ctx.ob('C08-R4', mg, 'merged index built exactly for identified inputs', ok,
-           'under `if indexable`' if ok else 'merged index creation is not tied to the inputs being identified')
 
 
 LINKED_ATOMS = {'self.nc_linked', 'self._file_creation_pending'}
@@ -1616,7 +1699,11 @@ def run(ctx):
     rule_stale(ctx, m)
     rule_fresh(ctx, m)
     rule_sorted(ctx, m)
-    rule_offsets(ctx, m)
+    # R3: the merged index and the metadata agree on the order of the parts (provenance rules shared with C09)
+    from .c09 import merge_metadata, rule_index_walk, rule_merged_index
+    merge_metadata(ctx, ctx.prog, m, 'C08-R3')
+    rule_index_walk(ctx, ctx.prog, m, 'C08-R3')
+    rule_merged_index(ctx, ctx.prog, m, 'C08-R3')
     rule_all_or_none(ctx, m)
     rule_linked(ctx, m)
     ctx.note('wrong-trajectory reads in append sessions caused by a stale size table are reported under C07-R1')
